@@ -166,12 +166,9 @@ func c13Prop(c *sim.Case) {
 		c.Violation("param-mismatch:scope"+sigSfx, "Location %q: scope = %q", loc, sc)
 	}
 	gotScopes := strings.Split(sc[0], " ")
-	// the scope parameter is a set of space-delimited tokens: the configured ones, each as often as configured, in
-	// whatever order
-	gotSorted, wantSorted := append([]string{}, gotScopes...), append([]string{}, w.Cfg.GetScopes()...)
-	sort.Strings(gotSorted)
-	sort.Strings(wantSorted)
-	if strings.Join(gotSorted, "\x00") != strings.Join(wantSorted, "\x00") {
+	// the scope parameter is a set of space-delimited tokens (RFC 6749 3.3: order does not matter, repeating one adds
+	// nothing): exactly the configured ones
+	if g, w2 := scopeSet(gotScopes), scopeSet(w.Cfg.GetScopes()); g != w2 {
 		c.Violation("param-mismatch:scope"+sigSfx, "scope decodes to %q, configured (resolved) scopes are %q", gotScopes, w.Cfg.GetScopes())
 	}
 	hasOpenID := false
@@ -233,4 +230,18 @@ func TestC13(t *testing.T) {
 	}
 	r.CheckKnown(parts)
 	r.Rapid("redirects", r.N(20000, 600000), c13Prop)
+}
+
+// scopeSet is the canonical form of a scope list read as a set.
+func scopeSet(l []string) string {
+	m := map[string]bool{}
+	for _, s := range l {
+		m[s] = true
+	}
+	out := make([]string, 0, len(m))
+	for s := range m {
+		out = append(out, s)
+	}
+	sort.Strings(out)
+	return strings.Join(out, "\x00")
 }
